@@ -21,6 +21,7 @@ class C07(scen.WorldProp):
                 "Wheatley.C07.stopped_stays_stopped",
                 "Wheatley.C07.silent_when_stopped",
                 "Wheatley.C07.only_look_to_starts",
+                "Wheatley.C07.setting_keeps_stand",
                 "Wheatley.startNextRow_ctl"]
     level_text = ("theorems: That's all gives at most one more method row then rounds; Rounds returns to the opening "
                   "row from the next row; Stand / stop-at-rounds stop ringing only at a row boundary whose next row is "
